@@ -62,19 +62,22 @@ META = {
             '(kernel, dtype signature, argument bytes)',
     'search_only': ['no undefined integer / shift / pointer operation: UBSan + _GLIBCXX_ASSERTIONS on the rebuilt kernels (not modelled in Lean)',
                     'releases what it allocates: live-heap-bytes delta around every traced call (ASan allocator statistics)',
-                    'bounds safety of the one kernel without a checked model (center_nodes: an in-range predecessor after a centre move needs Floyd-Warshall reachability inside '
-                    'the cluster; a fault-detecting model exists in Model/ExtC12Bal.lean, property C12): ASan on generated inputs',
                     'termination of the kernels with data-dependent loops other than the five with a *_total theorem: CPU-time limit per call',
                     'reads of uninitialised work memory: only through ASan malloc_fill (0xbe) turning garbage indices into wild accesses, and output poisoning',
                     'outputs fully defined: poison patterns in output buffers (contract table CONTRACT in this file)'],
-    'partial': ['round-4 models with data dependent outer loops: maximal_independent_set_parallel with max_iters = -1 and maximal_independent_set_k_parallel with max_iters = -1: '
-                'the theorems are "a run that returns was in range" for EVERY fuel (plus "returns within max_iters passes" for max_iters >= 0); termination of these two is proved '
-                'for the function models of C18 (misK_total needs weights above -1, mis_parallel_total).  vertex_coloring_jones_plassmann / vertex_coloring_LDF / cljp_naive_splitting: '
-                'termination within n rounds IS proved for the Ck models (vertex_coloring_*_total, cljp_naive_splitting_total) under WOrd / CjOrd (weight comparisons `>` irreflexive + '
+    'partial': ['66 of 66 kernels have a model that is compared with the rebuilt kernel and a no-fault theorem (E46: center_nodes, the last one, through E34\'s Option-style '
+                'model BalLloyd.centerNodes: center_nodes_no_fault; its loop nest is fixed-trip, so termination is not an issue). '
+                'round-4 models with data dependent outer loops: termination INSIDE the Ck models is proved for maximal_independent_set_parallel with max_iters = -1 '
+                '(mis_parallel_checked_total: any pattern, WOrd weights, any fuel >= n + 1) and for maximal_independent_set_k_parallel with max_iters = -1 '
+                '(mis_k_parallel_checked_total, by refinement to the function model of C18: SYMMETRIC pattern, k >= 0, strictly totally ordered weights above the marker -1, any fuel >= n + 1; '
+                'on a nonsymmetric pattern or with a weight <= -1 only "a run that returns was in range" is proved), for vertex_coloring_jones_plassmann / vertex_coloring_LDF / '
+                'cljp_naive_splitting (within n rounds, vertex_coloring_*_total, cljp_naive_splitting_total) under WOrd / CjOrd (weight comparisons `>` irreflexive + '
                 'transitive, compatible with `==`: IEEE doubles, exact arithmetic); '
                 'vertex_coloring_mis, pairwise_aggregation, fit_candidates, pinv_array and evolution_strength_helper (svd_jacobi sweeps) include termination',
-                'bellman_ford_balanced: the no-fault theorems are about the validated executable model Bal.kernel / Bal.wrapper (Option-style, not the Ck monad); termination within n*n '
-                'sweeps is not proved (the kernel throws)',
+                'bellman_ford_balanced and center_nodes: the no-fault theorems are about the validated executable models Bal.kernel / Bal.wrapper / BalLloyd.centerNodes '
+                '(Option-style, not the Ck monad; center_nodes reads of the np.empty work arrays C, L are modelled as faults too); termination of bellman_ford_balanced within n*n '
+                'sweeps is not proved (the kernel throws); balanced_lloyd_loop_no_fault covers every kernel call of the loop `while (changed1 or changed2) and it < maxiter` '
+                '(BalLloyd.innerLoop), not the distance tables / rebalancing of balanced_lloyd_cluster (Floyd-Warshall alone: floyd_warshall_cluster_ok)',
                 'rs_cf_splitting: the whole-kernel theorem rs_cf_splitting_safe (checked model RS.runCk, op ext_rs_whole: all initialisation loops, main loop, '
                 'bucket moves, clean-up; in range, nothing negative, main loop within n iterations, value = RS.run) is for `influence` = 0, which is what RS() passes '
                 'unless the caller supplies a vector; a non-zero influence vector is search-only',
@@ -101,6 +104,11 @@ META = {
                     'BDBCols >= NullDim(NullDim+1)/2; the region split of `work` in svd_solve (U, V, x as three arrays) is stricter than the C++ allocation; '
                     'bellman_ford_balanced: positive weights on a grid coarser than 2*tol, arrays as the wrapper / the Lloyd loop initialise them (Bal.Inv); the correspondence inputs of '
                     'maximal_independent_set_k_parallel keep the weights above -1 (C18 finding: otherwise no termination with max_iters = -1, kept as a `nonterm` control)',
+                    'round-5 (E46): center_nodes: weights non-negative, the state is what bellman_ford_balanced leaves in the Lloyd loop (KInv: cluster ids -1..k-1 with an exact size array, '
+                    'centres inside their clusters; proved for every call site by balanced_lloyd_loop_no_fault), every node assigned and no cluster above max_size (the two ValueError checks '
+                    'of balanced_lloyd_cluster in front of the call), predecessors p[j] are nodes (p[c] = c for centres: the Lloyd initialisation, not the -1 of the bare bellman_ford wrapper); '
+                    'NO connectivity assumption (a new centre has a finite q, hence a finite row of D). The correspondence inputs: any pattern, weights on the grid 1/2, distinct centres, runs of '
+                    'bellman_ford_balanced that return with every node assigned. c17r5_mis_k_parallel: symmetric patterns, weights above -1; c17r5_mis_parallel: any pattern',
                     'scalar arithmetic is abstract in the theorems; overflow of 32-bit index arithmetic is left to UBSan on sizes n <= 40'],
     'trusted_extra': ['g++ AddressSanitizer/UBSan runtime and libstdc++ assertions (the instrumented build is the oracle of the search)',
                       'harness/props/c17.py CONTRACT table: which output regions each kernel must define'],
@@ -518,10 +526,17 @@ class Tracer:
 # generators of structurally valid inputs
 # ------------------------------------------------------------------------------------------------
 
-def rand_pattern(rng, n, m=None, sym=None, diag=None, dens=None, unsorted=None, cplx=False, explicit_zero=None):
+DUP_P = 0.0      # probability that a generated pattern stores some columns twice (a structurally valid, non-canonical CSR/BSR matrix).  Set by child_main for
+#                  the sanitizer search (raw + public scenarios); 0 for the correspondence inputs, whose generators are unchanged (they build their own duplicates).
+
+
+def rand_pattern(rng, n, m=None, sym=None, diag=None, dens=None, unsorted=None, cplx=False, explicit_zero=None, dup=None):
     """(indptr, indices, data) int32/int32/float64|complex128, NOT canonicalised by SciPy.
-    diag: 'all' | 'some' (some missing) | 'zero' (some stored as explicit 0) | 'none'."""
+    diag: 'all' | 'some' (some missing) | 'zero' (some stored as explicit 0) | 'none'.
+    dup: some rows store a column more than once (next to each other when the row is sorted, anywhere otherwise)."""
     m = n if m is None else m
+    if dup is None:
+        dup = bool(DUP_P > 0 and rng.random() < DUP_P)       # (no draw when DUP_P = 0: the correspondence stream is as before)
     if dens is None:
         dens = float(rng.choice([0.0, 0.1, 0.25, 0.5, 1.0], p=[.08, .22, .3, .25, .15]))
     if sym is None:
@@ -576,6 +591,13 @@ def rand_pattern(rng, n, m=None, sym=None, diag=None, dens=None, unsorted=None, 
         cols = sorted(set(int(c) for c in cols))
         if unsorted and len(cols) > 1:
             cols = [cols[t] for t in rng.permutation(len(cols))]
+        if dup and cols and rng.random() < 0.6:
+            for _ in range(int(rng.integers(1, 3))):
+                # a stored entry once more: any one, or the smallest / largest column of the row (where scans over a sorted row start / stop)
+                r_ = rng.random()
+                c2 = cols[int(rng.integers(len(cols)))] if r_ < 0.5 else (max(cols) if r_ < 0.8 else min(cols))
+                at = int(rng.integers(len(cols) + 1)) if unsorted else cols.index(c2)
+                cols.insert(at, c2)
         for c in cols:
             if c == i and i < k:
                 v = 0.0 if dzero[i] else float(rng.choice([1, 2, 4, 8, -2, 0.5]))
@@ -591,6 +613,8 @@ def rand_pattern(rng, n, m=None, sym=None, diag=None, dens=None, unsorted=None, 
     if (np.diff(ip) == 0).any():
         feats.append('empty_row')
     feats += [f'diag={diag}', 'unsorted' if unsorted else 'sorted', 'sym' if sym else 'nonsym', f'dens={dens}'] + (['explicit_zeros'] if explicit_zero else [])
+    if dup and any(len(set(ix[ip[i]:ip[i + 1]])) < ip[i + 1] - ip[i] for i in range(n)):
+        feats.append('duplicate_entries')
     return (np.array(ip, dtype=np.int32), np.array(ix, dtype=np.int32),
             np.array(dx, dtype=np.complex128 if cplx else np.float64), feats)
 
@@ -890,27 +914,50 @@ class Raw:
             params = self.ov.pick(rng, 'incomplete_mat_mult_csr')
             c = is_cplx(params)
             n = rand_n(rng)
-            ap, aj, ax, f1 = rand_pattern(rng, n, cplx=c, unsorted=False)
-            bp, bj, bx, f2 = rand_pattern(rng, n, cplx=c, unsorted=False)      # CSC arrays of B (sorted)
-            sp_, sj, sx, f3 = rand_pattern(rng, n, cplx=c, unsorted=False)
+            # the merge of my_inner is written for sorted duplicate-free rows / columns; it must stay in range on any structurally valid operand
+            srt = False if rng.random() < 0.5 else None
+            ap, aj, ax, f1 = rand_pattern(rng, n, cplx=c, unsorted=srt)
+            bp, bj, bx, f2 = rand_pattern(rng, n, cplx=c, unsorted=srt)      # CSC arrays of B
+            sp_, sj, sx, f3 = rand_pattern(rng, n, cplx=c, unsorted=srt)
             self.tr.ctx.update(feats=f1 + f2 + f3)
             self.call(rng, 'incomplete_mat_mult_csr', [ap, aj, ax, bp, bj, bx, sp_, sj, sx, n], params)
 
-    # ---- Schwarz with explicit subdomains (sorted, unique, non-empty), sizes as relaxation.schwarz_parameters builds them
+    # ---- Schwarz with explicit subdomains, sizes as relaxation.schwarz_parameters builds them (Tx holds |subdomain d|^2 values at Tp[d]).
+    #      A: any structurally valid CSR matrix (rows sorted or not, duplicate stored entries: schwarz_parameters does not canonicalise A);
+    #      subdomains: lists of rows -- sorted and unique / in any order / with repetitions / the stored rows of A themselves (the default of
+    #      schwarz_parameters: unsorted and with repetitions when A is), now and then an empty one.  Every array is an exactly sized heap block of its
+    #      own, so an access one past the end of Sj / Tx / Aj is an ASan report (it is for the LAST subdomain / block that a scan running over
+    #      the end of a subdomain leaves the array).
     def schwarz_raw(self, rng):
         params = self.ov.pick(rng, 'extract_subblocks')
         c = is_cplx(params)
         n = rand_n(rng)
-        ip, ix, dx, feats = rand_pattern(rng, n, cplx=c, unsorted=False)
+        ip, ix, dx, feats = rand_pattern(rng, n, cplx=c)
         nsd = int(rng.integers(1, n + 2))
-        doms = [np.sort(rng.choice(n, size=int(rng.integers(1, n + 1)), replace=False)).astype(np.int32) for _ in range(nsd)]
+        mode = str(rng.choice(['sorted', 'sorted', 'anyorder', 'repeats', 'rows']))
+        doms = []
+        for _ in range(nsd):
+            if mode == 'rows':
+                r_ = int(rng.integers(n))
+                d = ix[ip[r_]:ip[r_ + 1]].copy()
+            elif mode == 'repeats':
+                d = rng.integers(0, n, size=int(rng.integers(1, n + 3)))
+                if rng.random() < 0.5:
+                    d = np.sort(d)
+            else:
+                d = rng.choice(n, size=int(rng.integers(1, n + 1)), replace=False)
+                if mode == 'sorted':
+                    d = np.sort(d)
+            if rng.random() < 0.06:
+                d = d[:0]
+            doms.append(np.asarray(d, dtype=np.int32))
         Sp = np.zeros(nsd + 1, dtype=np.int32)
         Sp[1:] = np.cumsum([len(d) for d in doms])
         Sj = np.concatenate(doms).astype(np.int32)
         Tp = np.zeros(nsd + 1, dtype=np.int32)
         Tp[1:] = np.cumsum([len(d) ** 2 for d in doms])
         Tx = np.zeros(int(Tp[-1]), dtype=dx.dtype)
-        self.tr.ctx.update(feats=feats, nsd=nsd)
+        self.tr.ctx.update(feats=feats + ['subdomains=' + mode], nsd=nsd)
         _, ca = self.call(rng, 'extract_subblocks', [ip, ix, dx, Tx, Tp, Sj, Sp, nsd, n], params)
         s0, s1, s2 = rand_sweep(rng, nsd)
         self.tr.ctx.update(sweep=[s0, s1, s2])
@@ -951,8 +998,9 @@ class Raw:
             sp_, sj, _, feats = rand_pattern(rng, nbr, m=nbc, diag='none')
             if nbc > 1 and len(sj) and rng.random() < 0.7:
                 sj[int(rng.integers(len(sj)))] = nbc - 1            # the last block column is where a wrong stride leaves B
-            # drop duplicates created above by rebuilding the rows
-            rows = [sorted(set(sj[sp_[i]:sp_[i + 1]].tolist())) for i in range(nbr)]
+            # drop duplicates created above by rebuilding the rows (now and then they stay: block rows out of order / a block column stored twice)
+            keep_dup = DUP_P > 0 and rng.random() < 0.3
+            rows = [(sj[sp_[i]:sp_[i + 1]].tolist() if keep_dup else sorted(set(sj[sp_[i]:sp_[i + 1]].tolist()))) for i in range(nbr)]
             sp_ = np.zeros(nbr + 1, dtype=np.int32)
             sp_[1:] = np.cumsum([len(r_) for r_ in rows])
             sj = np.array([c_ for r_ in rows for c_ in r_], dtype=np.int32)
@@ -1290,6 +1338,36 @@ class Public:
             self.attempt('gauss_seidel_nr', RX.gauss_seidel_nr, A, x, b, sweep=sweep)
             x, b = mk()
             self.attempt('schwarz', RX.schwarz, self.csr(ip, ix, dx, n), x, b, sweep=sweep)
+        # Schwarz set-up called directly: schwarz() sorts the rows of its matrix first, schwarz_parameters() hands A to extract_subblocks as it is stored
+        # (default subdomains = the stored rows of A: unsorted / with repetitions when A is), and with caller-supplied subdomains (sorted and
+        # unique, any order, repetitions, an empty one); then one sweep with the parameters it returned
+        self.attempt('schwarz_parameters', RX.schwarz_parameters, self.csr(ip, ix, dx, n))
+        smode = str(rng.choice(['sorted', 'anyorder', 'repeats']))
+        sdoms = []
+        for _ in range(int(rng.integers(1, n + 2))):
+            if smode == 'repeats':
+                d = rng.integers(0, n, size=int(rng.integers(1, n + 3)))
+            else:
+                d = rng.choice(n, size=int(rng.integers(1, n + 1)), replace=False)
+            if smode == 'sorted' or rng.random() < 0.3:
+                d = np.sort(d)
+            if rng.random() < 0.06:
+                d = d[:0]
+            sdoms.append(np.asarray(d, dtype=np.int32))
+        sdp = np.zeros(len(sdoms) + 1, dtype=np.int32)
+        sdp[1:] = np.cumsum([len(d) for d in sdoms])
+        sd = np.concatenate(sdoms).astype(np.int32)
+        self.tr.ctx.update(feats=feats + ['subdomains=' + smode])
+        A2 = self.csr(ip, ix, dx, n)
+        r = self.attempt('schwarz_parameters(subdomains)', RX.schwarz_parameters, A2, sd.copy(), sdp.copy())
+        if r is not None:
+            x, b = mk()
+            self.attempt('schwarz(subdomains, inverses)', RX.schwarz, A2, x, b, subdomain=r[0], subdomain_ptr=r[1], inv_subblock=r[2], inv_subblock_ptr=r[3],
+                         sweep=str(rng.choice(['forward', 'backward', 'symmetric'])))
+        x, b = mk()
+        self.attempt('schwarz(subdomains)', RX.schwarz, self.csr(ip, ix, dx, n), x, b, subdomain=sd.copy(), subdomain_ptr=sdp.copy(),
+                     sweep=str(rng.choice(['forward', 'backward', 'symmetric'])))
+        self.tr.ctx.update(feats=feats)
         x, b = mk()
         self.attempt('jacobi', RX.jacobi, A, x, b, omega=0.5)
         x, b = mk()
@@ -1538,6 +1616,8 @@ def child_main(argv):
         raise GroupTimeout()
     signal.signal(signal.SIGPROF, on_prof)
     from pyamg import amg_core          # the package namespace re-exports the (wrapped) shim functions
+    global DUP_P
+    DUP_P = 0.3                         # raw + public scenarios: three patterns in ten store some column twice
     raw = Raw(amg_core, Overloads(spec), tr)
     pub = Public(tr, out)
     scen = [('raw', s) for s in Raw.SCENARIOS] + [('pub', s) for s in Public.SCENARIOS]
@@ -2216,6 +2296,55 @@ def ext4_model_items(rng, amg_core, add, n, ip, ix, dx):
         'maximal_independent_set_k_parallel', nt)
 
 
+def ext5_model_items(rng, amg_core, add, n, ip, ix, dx):
+    """extension E46 (round 5): the termination theorems of the checked models of the two parallel independent-set kernels (driver ops
+    `c17r5_mis_parallel`, `c17r5_mis_k_parallel`: max_iters = -1, fuel n + 1, rational weights; theorems mis_parallel_checked_total,
+    mis_k_parallel_checked_total) and the last kernel, center_nodes, against E34's fault-detecting model `BalLloyd.centerNodes` (op
+    `ext_c12_center_nodes`; theorem center_nodes_no_fault: the reply is never `fault` on a state bellman_ford_balanced leaves)"""
+    from common import enc_ints, enc_rats, enc_rat
+    nt = len(ix) > 0
+    gh = f'{n} {enc_ints(ip)} {enc_ints(ix)}'
+    # maximal_independent_set_parallel with max_iters = -1 on ANY pattern, ties, any start vector (entries -1 = active, 0, 1), marks -1/1/0
+    y = rng.integers(0, 3, size=n).astype(float) * float(rng.choice([0.5, 1.0]))
+    x0 = np.full(n, -1, dtype=np.int32)
+    if rng.random() < 0.3:
+        x0 = rng.choice([-1, -1, 0, 1], size=n).astype(np.int32)
+    xp = x0.copy()
+    N = amg_core.maximal_independent_set_parallel(n, ip, ix, -1, 1, 0, xp, y, -1)
+    add(f'c17r5_mis_parallel {gh} -1 1 0 {enc_ints(x0)} {enc_rats(y)}', f'{enc_ints(xp)};{int(N)};ok',
+        'maximal_independent_set_parallel(max_iters=-1, fuel n+1)', nt)
+    # maximal_independent_set_k_parallel with max_iters = -1 on a SYMMETRIC pattern (self loops, duplicates allowed), weights above -1 with ties
+    gp, gj, _, _ = _exact_csr(rng, n, sym=True, unsorted=bool(rng.integers(2)))
+    k = int(rng.integers(0, 4))
+    yk = rng.integers(0, 4, size=n).astype(float) * 0.25 - float(rng.choice([0.0, 0.5]))
+    xk = np.full(n, -7, dtype=np.int32)
+    amg_core.maximal_independent_set_k_parallel(n, gp, gj, k, xk, yk, -1)
+    add(f'c17r5_mis_k_parallel {n} {enc_ints(gp)} {enc_ints(gj)} {k} {enc_ints(np.full(n, -7))} {enc_rats(yk)}',
+        f'{enc_ints(xk)};ok;{enc_ints(xk)}', 'maximal_independent_set_k_parallel(max_iters=-1, fuel n+1, symmetric)', len(gj) > 0)
+    # center_nodes on the state one bellman_ford_balanced pass leaves (Lloyd-style initialisation p[c] = c, pc[c] = 1): ANY pattern,
+    # positive weights on the grid 1/2 (far above the tolerance 1e-14), distinct centres; max_size = the wrapper's value or the exact maximum
+    wb = (np.abs(dx) + 1.0) * 0.5
+    kc = int(rng.integers(1, min(n, 3) + 1))
+    cs = rng.choice(n, size=kc, replace=False).astype(np.int32)
+    d, m, p = np.full(n, np.inf), np.full(n, -1, dtype=np.int32), np.full(n, -1, dtype=np.int32)
+    pc, sz = np.zeros(n, dtype=np.int32), np.ones(kc, dtype=np.int32)
+    d[cs], m[cs], p[cs], pc[cs] = 0, np.arange(kc), cs, 1
+    try:
+        amg_core.bellman_ford_balanced(n, ip, ix, wb, cs, d, m, p, pc, sz, bool(rng.integers(2)))
+        ok = bool(m.min() >= 0)
+    except RuntimeError:
+        ok = False
+    if ok:
+        maxsize = int(12 * np.ceil(n / kc)) if rng.integers(2) else int(sz.max())
+        encd = lambda v: ','.join('inf' if not np.isfinite(t_) else enc_rat(t_) for t_ in v) if len(v) else '-'
+        line = (f'ext_c12_center_nodes {gh} {enc_rats(wb)} {enc_rat(1e-14)} {maxsize} {enc_ints(cs)} {encd(d)} {enc_ints(m)} '
+                f'{enc_ints(p)} {enc_ints(pc)} {enc_ints(sz)}')
+        Cptr, CC, L = np.zeros(kc, dtype=np.int32), np.zeros(n, dtype=np.int32), np.zeros(n, dtype=np.int32)
+        D, P, q = np.zeros(maxsize * maxsize), np.zeros(maxsize * maxsize, dtype=np.int32), np.zeros(maxsize)
+        ch = amg_core.center_nodes(n, ip, ix, wb, Cptr, D, P, CC, L, q, cs, d, m, p, pc, sz)
+        add(line, f'{enc_ints(cs)};{encd(d)};{enc_ints(p)};{enc_ints(pc)};{"true" if ch else "false"}', 'center_nodes', nt)
+
+
 def ext4_empty_items(rng, amg_core, add):
     """E32: the round-4 graph / splitting / aggregation models on the EMPTY graph (num_rows = 0, all arrays of length 0), compared exactly with the kernels
     (since c2b91b3 the colourings return -1 and CLJP returns at once)"""
@@ -2250,6 +2379,7 @@ def model_items(seed, ncases, inflight):
     rng_ext3 = np.random.default_rng([seed, 1717, 19])
     rng_ext25 = np.random.default_rng([seed, 1717, 25])
     rng_ext4 = np.random.default_rng([seed, 1717, 32])
+    rng_ext5 = np.random.default_rng([seed, 1717, 46])
     items = []          # (line, expected, what, nontrivial)
     feats_all = collections.Counter()
 
@@ -2393,6 +2523,7 @@ def model_items(seed, ncases, inflight):
         ext3_model_items(rng_ext3, amg_core, add, n, ip, ix, dx)
         ext25_model_items(rng_ext25, amg_core, add, n, ip, ix)
         ext4_model_items(rng_ext4, amg_core, add, n, ip, ix, dx)
+        ext5_model_items(rng_ext5, amg_core, add, n, ip, ix, dx)
         if t % 10 == 0:
             ext4_empty_items(rng_ext4, amg_core, add)
         # proof-side models of the termination theorems + RS model (existing ops; symmetric graphs, no self loops for RS)
@@ -2553,7 +2684,17 @@ def part_model(ctx, ncases):
         ('ext_c17r4_vertex_coloring_LDF 2 0,1,2 1,7 -7,-7 0,0', ';fault'),                                # column index 7
         ('ext_c17r4_maximal_independent_set_k_parallel 2 0,1,2 1,0 1 -7,-7 0 -1', ';fault'),              # y has one entry
         ('ext_c17r4_maximal_independent_set_k_parallel 2 0,1,2 1,5 1 -7,-7 0,0 -1', ';fault'),            # column index 5: i_keys[5]
-        ('ext_c17r4_maximal_independent_set_k_parallel 3 0,1,3,4 1,0,2,1 1 -7,-7,-7 -1,0,1 -1', 'nonterm'),   # a weight <= -1 next to a decided node (C18 finding): the fuel runs out
+        ('ext_c17r4_maximal_independent_set_k_parallel 3 0,1,3,4 1,0,2,1 1 -7,-7,-7 -1,0,1 -1', 'nonterm'),
+        # E46: the termination theorems need their hypotheses: a weight <= -1 next to a decided node exhausts the fuel n + 1 ...
+        ('c17r5_mis_k_parallel 3 0,1,3,4 1,0,2,1 1 -7,-7,-7 -1,0,1', 'nonterm'),
+        ('c17r5_mis_k_parallel 3 0,1,3,4 1,0,2,1 1 -7,-7,-7 0,0,1', '1,0,1;ok;1,0,1'),                  # ... weights above -1 do not
+        ('c17r5_mis_parallel 2 0,1,2 1,0 -1 1 0 -1,-1 0', ';fault'),                                    # y has one entry
+        ('c17r5_mis_parallel 3 0,1,2,2 1,2 -1 1 0 -1,-1,-1 0,1,2', '1,0,1;2;ok'),                       # directed path 0->1->2, increasing weights: several passes, within the fuel
+        # E46, center_nodes (model BalLloyd.centerNodes): path 0-1-2, one cluster, centre 0 moves to node 1; with p[1] = -1 (not a node: hypothesis
+        # PRange of center_nodes_no_fault violated) the update `pc[p[j]]--` leaves the array
+        ('ext_c12_center_nodes 3 0,1,3,4 1,0,2,1 1,1,1,1 1/100000000000000 3 0 0,1,2 0,0,0 0,0,1 2,1,0 3', '1;1,0,1;1,1,1;0,3,0;true'),
+        ('ext_c12_center_nodes 3 0,1,3,4 1,0,2,1 1,1,1,1 1/100000000000000 3 0 0,1,2 0,0,0 0,-1,1 2,1,0 3', 'fault'),
+        ('ext_c12_center_nodes 3 0,1,3,4 1,0,2,1 1,1,1,1 1/100000000000000 2 0 0,1,2 0,0,0 0,0,1 2,1,0 3', 'fault'),   # max_size 2 < cluster size 3   # a weight <= -1 next to a decided node (C18 finding): the fuel runs out
     ]
     outs = ctx.lean([c[0] for c in controls], chunks=1)
     for (line, want), o in zip(controls, outs):
